@@ -17,7 +17,7 @@ use smartcore::linalg::naive::dense_matrix::DenseMatrix;
 use smartcore::linalg::BaseMatrix;
 use smartcore::math::num::RealNumber;
 use smartcore::model_selection::{
-    cross_val_predict, cross_validate, train_test_split, BaseKFold, KFold,
+    cross_val_predict, cross_validate, train_test_split, BaseKFold, KFold, KFoldIter,
 };
 use std::cell::RefCell;
 use std::collections::BTreeSet;
@@ -534,6 +534,37 @@ impl C16 {
                         if let Err((c, m)) = check_folds(n, k, case.shuffle, &trains, &tests) {
                             rep.fail(c, "kfold", format!("KFold(n={}, k={}, shuffle={}): {}", n, k, case.shuffle, m));
                         }
+                        // iterator protocol: advancing the splitter's iterator with nth / skip / step_by must yield the
+                        // same folds as next() does. The same words are served again to every fresh split() call.
+                        if rep.violation.is_none() && pairs.len() >= 2 {
+                            let fresh = |f: &dyn Fn(KFoldIter) -> Vec<(Vec<usize>, Vec<usize>)>| {
+                                rand::sim::uninstall();
+                                let g2 = TapeGuard::install(&case.tape);
+                                let out = guarded(|| f(cv.split(&x)));
+                                std::mem::forget(g2); // the outer guard uninstalls on drop
+                                out
+                            };
+                            let j = (case.tape.seed % pairs.len() as u64) as usize;
+                            let checks: Vec<(&str, Result<Vec<(Vec<usize>, Vec<usize>)>, String>, Vec<(Vec<usize>, Vec<usize>)>)> = vec![
+                                ("nth", fresh(&|mut it| it.nth(j).into_iter().collect()), vec![pairs[j].clone()]),
+                                ("skip(1)", fresh(&|it| it.skip(1).collect()), pairs[1..].to_vec()),
+                                ("step_by(2)", fresh(&|it| it.step_by(2).collect()), pairs.iter().step_by(2).cloned().collect()),
+                            ];
+                            for (what, got, want) in checks {
+                                match got {
+                                    Err(msg) => rep.fail("panic", "kfold-iterator", format!("KFold(n={}, k={}).split().{} panicked: {}", n, k, what, msg)),
+                                    Ok(g) => {
+                                        if g != want {
+                                            rep.fail(
+                                                "iterator-protocol",
+                                                "kfold-iterator",
+                                                format!("KFold(n={}, k={}, shuffle={}): split().{} yields test sets {:?} but next() yields {:?} for the same draw", n, k, case.shuffle, what, g.iter().map(|p| clip(&p.1)).collect::<Vec<_>>(), want.iter().map(|p| clip(&p.1)).collect::<Vec<_>>()),
+                                            );
+                                        }
+                                    }
+                                }
+                            }
+                        }
                         tests_for_state = Some(tests);
                     }
                 }
@@ -974,6 +1005,13 @@ impl Property for C16 {
                             }
                             if train.is_empty() {
                                 continue;
+                            }
+                            // a splitter may hand out its rows in any order
+                            if r.chance(0.5) {
+                                r.shuffle(&mut test);
+                            }
+                            if r.chance(0.5) {
+                                r.shuffle(&mut train);
                             }
                             folds.push((train, test));
                         }
